@@ -53,7 +53,12 @@ pub fn output_tokens(
     let impl_sub_attributes: Vec<_> = sub_attributes
         .iter()
         .copied()
-        .filter(|sub_attr| matches!(sub_attr, SubAttribute::AsyncTrait(_)))
+        .filter(|sub_attr| match sub_attr {
+            SubAttribute::AsyncTrait(_) => true,
+            // the generated items must exist under the same conditions as the trait
+            SubAttribute::Other(attr) => attr.path().is_ident("cfg"),
+            _ => false,
+        })
         .collect();
 
     let trait_dependency_mode = TraitDependencyMode::Generic(GenericIdents::new(
@@ -197,10 +202,15 @@ fn gen_impl_delegation_trait_defs(
                 &FnInputMode::RawTrait(LiteralAttrs(&[])),
             )?;
 
+            let cfg_attributes = impl_sub_attributes
+                .iter()
+                .filter(|sub_attr| !matches!(sub_attr, SubAttribute::AsyncTrait(_)));
+
             Ok(Some(quote! {
                 #(#impl_sub_attributes)*
                 #trait_def
 
+                #(#cfg_attributes)*
                 pub trait #delegation_ident<T> {
                     type Target: #impl_trait_ident<T>;
                 }
